@@ -1,5 +1,7 @@
 package main
 
+import "strings"
+
 // Generator profiles: per-property biases on top of the general generator.
 
 func applyProfile(g *Gen, profile string) {
@@ -217,7 +219,16 @@ func genArgvFor(g *Gen, profile string, p *ProgDef) []string {
 			out = append(append(out, p.HelpName), path...)
 		case 3:
 			if len(path) > 0 {
-				out = append(append(append(out, path[:len(path)-1]...), p.HelpName), path[len(path)-1])
+				topic := path[len(path)-1]
+				if g.pct(15) {
+					// a topic that is not a command of the level, only a case variant of one
+					topic = strings.ToUpper(topic[:1]) + topic[1:]
+					if g.pct(50) {
+						topic = strings.ToUpper(topic)
+					}
+				}
+				out = append(append(append(out, path[:len(path)-1]...), p.HelpName), topic)
+				return out
 			} else {
 				out = append(out, p.HelpName)
 			}
